@@ -114,3 +114,123 @@ Proof.
     change 3%nat with (2 + 1 + pushlen (nth 2 ex_code 0%Z))%nat.
     apply IS_next; [exact S2|rewrite L; lia].
 Qed.
+
+(* ================================================================ composition with the reference
+   interpreter of C01 (Model/Step.v + Model/Evm.v, which executes JUMP / JUMPI through
+   Model/Jump.v).  Proofs in Proofs/EvmMiscProofs.v.
+   [code_ok F]: the frame holds its code as Contract::new does (lazy analysis of the raw bytes —
+   true of every frame the interpreter builds, see [call_child] / [create_child]) and the code
+   satisfies the hypotheses of the theorems above (bytes, length + 33 <= 2^64).
+   [reach W f G F I Gx Fx Ix]: the run [exec f W G F I] executes an instruction from the state
+   (Gx, Fx, Ix), of the frame itself or of a frame nested at any depth below it. *)
+From RevmV Require Import Model.Step Model.Evm Proofs.EvmProofs Proofs.EvmMiscProofs.
+
+(* JUMP as the interpreter executes it: the frame continues exactly onto a valid destination of
+   its own code (inside the code, byte 0x5b, instruction start) with the target popped; InvalidJump
+   exactly for a target that is not one; the remaining outcomes are stack underflow, out of gas
+   and the hardfork gate; the transaction state is untouched in every case *)
+Theorem C04_interpreter_jump :
+  forall W G F I G' x,
+    code_ok F -> opcode_at F (i_pc I) = 0x56 -> step W G F I = (G', x) ->
+    G' = G /\
+    match x with
+    | SNext I' =>
+        exists t r, i_stk I = t :: r /\ ValidDest (f_code F) t /\ i_pc I' = t /\ i_stk I' = r /\
+                    i_mem I' = i_mem I /\ i_rd I' = i_rd I
+    | SEnd res out I' =>
+        out = [] /\
+        (res = R_InvalidJump -> exists t r, i_stk I = t :: r /\ ~ ValidDest (f_code F) t) /\
+        (res = R_StackUnderflow -> i_stk I = []) /\
+        (res = R_InvalidJump \/ res = R_StackUnderflow \/ res = R_OutOfGas \/ res = R_NotActivated)
+    | _ => False
+    end.
+Proof. exact step_jump_spec. Qed.
+
+(* JUMPI: condition 0 falls through without validating the target; a taken JUMPI is a JUMP *)
+Theorem C04_interpreter_jumpi :
+  forall W G F I G' x,
+    code_ok F -> opcode_at F (i_pc I) = 0x57 -> step W G F I = (G', x) ->
+    G' = G /\
+    match x with
+    | SNext I' =>
+        exists t c r, i_stk I = t :: c :: r /\ i_stk I' = r /\ i_mem I' = i_mem I /\ i_rd I' = i_rd I /\
+          ((c = 0 /\ i_pc I' = i_pc I + 1) \/ (c <> 0 /\ ValidDest (f_code F) t /\ i_pc I' = t))
+    | SEnd res out I' =>
+        out = [] /\
+        (res = R_InvalidJump -> exists t c r, i_stk I = t :: c :: r /\ c <> 0 /\ ~ ValidDest (f_code F) t) /\
+        (res = R_StackUnderflow -> (length (i_stk I) < 2)%nat) /\
+        (res = R_InvalidJump \/ res = R_StackUnderflow \/ res = R_OutOfGas \/ res = R_NotActivated)
+    | _ => False
+    end.
+Proof. exact step_jumpi_spec. Qed.
+
+(* one instruction — any opcode — moves the program counter from an instruction start of the
+   padded code to an instruction start; a call / create resumes at one *)
+Theorem C04_interpreter_step_keeps_instruction_start :
+  forall W G F I,
+    code_ok F -> pc_start F I ->
+    match snd (step W G F I) with
+    | SNext I' => pc_start F I'
+    | SCall _ I' | SCreate _ I' => i_pc I' = i_pc I /\ pc_start F (set_pc I' (i_pc I' + 1))
+    | _ => True
+    end.
+Proof. exact step_pc_start. Qed.
+
+(* along a whole run, nested calls and creates included, every instruction is executed from an
+   instruction start (Spec/JumpSpec.v InstrStart) of the padded code of the frame executing it *)
+Theorem C04_interpreter_pc_is_instruction_start :
+  forall W f G F I Gx Fx Ix,
+    reach W f G F I Gx Fx Ix -> (code_ok F -> pc_start F I) -> code_ok Fx ->
+    pc_ok (f_code Fx) Ix /\ InstrStart (f_code Fx ++ padding) (Z.to_nat (i_pc Ix)).
+Proof. exact reach_pc_start. Qed.
+
+(* the same in the property's words: an executed position inside the code is an instruction start
+   of the code itself and not PUSH data; an executed position beyond it is padding, i.e. STOP *)
+Theorem C04_interpreter_pc_not_in_push_data :
+  forall W f G F I Gx Fx Ix,
+    reach W f G F I Gx Fx Ix -> (code_ok F -> pc_start F I) -> code_ok Fx ->
+    0 <= i_pc Ix <= Step.zlen (f_code Fx) + 32 /\
+    (i_pc Ix < Step.zlen (f_code Fx) ->
+       InstrStart (f_code Fx) (Z.to_nat (i_pc Ix)) /\ ~ InPushData (f_code Fx) (Z.to_nat (i_pc Ix))) /\
+    (Step.zlen (f_code Fx) <= i_pc Ix -> opcode_at Fx (i_pc Ix) = 0).
+Proof. exact reach_pc_not_push_data. Qed.
+
+(* [reach] covers the run: the instruction a completed frame ends with is executed from a state
+   of [reach] (so, e.g., an InvalidJump result comes from a JUMP / JUMPI covered by the theorems above) *)
+Theorem C04_interpreter_reach_covers_frame_end :
+  forall W f G F I G' r,
+    exec f W G F I = XDone (G', r) ->
+    exists Gx Ix Ix', reach W f G F I Gx F Ix /\
+                      step W Gx F Ix = (G', SEnd (ir_res r) (ir_out r) Ix') /\ ir_gas r = i_gas Ix'.
+Proof. exact exec_end_reached. Qed.
+
+(* every frame starts at an instruction start, and the frames the interpreter opens hold lazily
+   analysed raw code *)
+Theorem C04_interpreter_frames_start_ok :
+  forall W G Gc Fc Ic,
+    (forall c, call_child W G c = Some (Gc, Fc, Ic) ->
+       pc_start Fc Ic /\ f_bc Fc = contract_new (LegacyRaw (f_code Fc))) /\
+    (forall c, create_child W G c = Some (Gc, Fc, Ic) ->
+       pc_start Fc Ic /\ f_bc Fc = contract_new (LegacyRaw (f_code Fc))).
+Proof.
+  intros W G Gc Fc Ic. split; intros c E; [apply call_child_new in E|apply create_child_new in E];
+    destruct E as [-> E]; (split; [apply pc_start_new|exact E]).
+Qed.
+
+(* non-vacuity: PUSH1 4; JUMP; JUMPDEST; JUMPDEST; STOP — the hypotheses hold, the jump to 4 is
+   taken, a jump to 1 (PUSH data) is refused, and the run reaches the state after the jump *)
+Definition ex_jcode : list Z := [0x60; 0x04; 0x56; 0x5b; 0x5b; 0x00].
+Example C04_interpreter_example :
+  let W := mx_world ex_jcode in let F := mx_frame ex_jcode in let G := gstate_new W in
+  code_ok F /\ pc_start F (istate_new 100) /\
+  (exists I', step W G F (mkI 2 [4] M.mem_new (Gas.gas_new 100) []) = (G, SNext I') /\ i_pc I' = 4) /\
+  (exists I', step W G F (mkI 2 [1] M.mem_new (Gas.gas_new 100) []) = (G, SEnd R_InvalidJump [] I')) /\
+  reach W 3 G F (istate_new 100) G F (mkI 4 [] M.mem_new (Gas.mkGas 100 89 0) []).
+Proof.
+  intros W F G. split; [|split; [apply pc_start_new|split; [|split]]].
+  - split; [reflexivity|]. split; [repeat constructor; unfold byte_ok; lia|].
+    unfold code_fits, Jump.zlen, pow64. cbn. lia.
+  - eexists. split; [vm_compute; reflexivity|reflexivity].
+  - eexists. vm_compute. reflexivity.
+  - eapply RNext; [vm_compute; reflexivity|]. eapply RNext; [vm_compute; reflexivity|]. apply RHere.
+Qed.
